@@ -17,6 +17,42 @@ def le16(n):
     return [n & 0xff, (n >> 8) & 0xff]
 
 
+def malformed_starts(mtu, room):
+    """bodies of every kind of start fragment (LLID 2) that does not begin a fragmented SDU: shorter than
+    the L2CAP header (0..3 bytes; 0 bytes never reaches the buffer), announced length 0 (exact = an
+    empty unfragmented SDU, or with excess bytes), announced length > MTU, longer than announced,
+    unfragmented SDU. Each of them has to abort an SDU in progress."""
+    big = le16(mtu + 1) + [4, 0] + [0x5a] * min(8, room - 4)
+    return [[], [0x01], [0x01, 0x00], [0x01, 0x00, 0x04],
+            [0, 0, 4, 0], [0, 0, 4, 0, 0x77, 0x78],
+            big, le16(65535) + [4, 0, 1, 2, 3], le16(mtu + 1) + [4, 0],
+            le16(2) + [4, 0, 9, 9, 9],             # longer than announced
+            le16(3) + [4, 0, 7, 8, 9]]             # unfragmented SDU in between
+
+
+def malformed_start_family(mtu, oh):
+    """systematic: a three fragment train (start + 2 continuations, exact length) with every malformed start
+    fragment inserted at every point after the start fragment; next/free either after every PDU or only
+    at the end, with and without a LL control PDU next to the malformed fragment."""
+    L = min(mtu, 12)
+    data = le16(L) + [4, 0] + [(0xa0 + i) & 0xff for i in range(L)]
+    frags = [(2, data[:7]), (1, data[7:10]), (1, data[10:])]
+    cases = []
+    for bad in malformed_starts(mtu, 27):
+        for k in (1, 2):
+            for eager in (False, True):
+                for ctrl in (False, True):
+                    seq = frags[:k] + [(2, bad)] + ([(3, [0x0c, k])] if ctrl else []) + frags[k:]
+                    ops = []
+                    for llid, body in seq:
+                        ops.append("rx %d %s" % (llid, hexb(body)))
+                        if eager:
+                            ops += ["next 0", "free"]
+                    ops += ["next 0", "free", "next 0", "free", "next 0"]
+                    cases.append(ops)
+    return cases
+
+
 class Gen:
     """builds one case; keeps pessimistic counts of PDUs in the two rings so that the rings never refuse"""
 
@@ -91,6 +127,8 @@ class Gen:
         else:
             L = r.randrange(0, mtu + 1)
         L = max(L, 0)
+        if kind == "badstart_mid":
+            L = max(2, min(L, mtu))                # a valid SDU that needs at least one continuation
         total = min(L, 600) + 4                    # bytes really sent (length field may lie)
         if kind == "short":
             total = max(total - r.choice([1, 1, 2, 5]), 1)
@@ -100,6 +138,9 @@ class Gen:
         # first fragment
         if kind == "tinystart":
             f0 = r.choice([1, 2, 3])
+        elif kind == "badstart_mid":
+            f0 = r.choice([4, 5, max(4, min(room, total - 1)), r.randrange(4, max(5, min(room, total - 1) + 1))])
+            f0 = min(f0, total - 1)
         else:
             f0 = r.choice([4, 5, room, room, min(total, room), max(min(total, room) - 1, 1), r.randrange(1, room + 1)])
         f0 = max(1, min(f0, room, len(data)))
@@ -117,6 +158,11 @@ class Gen:
         if kind == "restart":                      # a second start fragment in the middle
             k = r.randrange(1, len(frags) + 1)
             frags = frags[:k] + [(2, data[:f0])] + frags[k:] if r.random() < 0.5 else frags[:k] + frags
+        if kind == "badstart_mid" and len(frags) >= 2:
+            # a malformed / ignored start fragment at a random point of the reassembly in progress; the
+            # continuations that follow would complete the OLD SDU
+            k = r.randrange(1, len(frags))
+            frags.insert(k, (2, r.choice(malformed_starts(mtu, room))))
         if kind == "zero":
             frags.insert(r.randrange(0, len(frags) + 1), (r.choice([1, 2]), []))
         if kind == "nostart":
@@ -172,7 +218,7 @@ class Gen:
                 self.drain_tx()
 
 
-RX_KINDS = ["ok"] * 10 + ["short", "long", "overlong_cont", "overlong_cont", "restart", "restart", "zero", "nostart",
+RX_KINDS = ["ok"] * 10 + ["badstart_mid"] * 4 + ["short", "long", "overlong_cont", "overlong_cont", "restart", "restart", "zero", "nostart",
                           "tinystart", "lenfield", "lenfield", "llid0", "toolong"]
 TX_KINDS = ["ok"] * 6 + ["boundary"] * 3 + ["pre"]
 
@@ -231,6 +277,8 @@ class C19(Standard):
         per = 80 if not ctx.thorough else 1500
         for mtu, oh in self.configs(ctx):
             cfg = [str(mtu), str(oh)]
+            for ops in malformed_start_family(mtu, oh):
+                cases.append(Case("badstart", cfg, ops))
             for k in range(per):
                 cases.append(Case("rnd", cfg, gen_case(rng, mtu, oh, rng.choice([1, 2, 3, 6]))))
         return cases
